@@ -112,6 +112,8 @@ def body(case, ctx):
     beh = {}
     if where != 'none' and fids:
         fid = fids[pick % len(fids)]
+        if fid.startswith('SH') and mwdev in ('raise-after', 'swallow', 'replace-after'):
+            mwdev = 'early-response'     # a shared instance occupies two layers: keep to deviations that act once
         beh[fid] = 'raise' if fid in ('ep', 'rn') else mwdev
     w = built.world
     w.beh = dict(beh)
